@@ -74,8 +74,9 @@ def gen_case(run_seed, tier):
         length = sz.randint(6, 20)
     init = sz.choice(["zero", "plus", "one", "graph", "arrays"])
     api = sz.choice(["func", "func", "stab", "mixed"])
-    kinds = ["g1", "g2", "mz", "mcopy", "reset", "swap", "ins", "addq", "rem", "tensor", "ptrace", "circ", "clone"]
-    w = {"g1": 8, "g2": 6, "mz": 2, "mcopy": 1, "reset": 1.5, "swap": 1.5, "ins": 1.5, "addq": 0.7, "rem": 1.5, "tensor": 0.7, "ptrace": 0.7, "circ": 1.0, "clone": 0.6}
+    kinds = ["g1", "g2", "mz", "mcopy", "reset", "swap", "ins", "addq", "rem", "tensor", "ptrace", "circ", "clone", "badcall"]
+    w = {"g1": 8, "g2": 6, "mz": 2, "mcopy": 1, "reset": 1.5, "swap": 1.5, "ins": 1.5, "addq": 0.7, "rem": 1.5, "tensor": 0.7, "ptrace": 0.7, "circ": 1.0, "clone": 0.6,
+         "badcall": 0.8 if sz.random() < 0.3 else 0}
     for k in kinds:
         if k not in ("g1", "g2") and sz.random() < 0.2:
             w[k] = 0
@@ -96,6 +97,8 @@ def gen_case(run_seed, tier):
             hist.append([wl.choice(["rz", "rz", "rx", "ry"]), a, wl.randrange(2), det, bit])
         elif k == "swap":
             hist.append(["swap", a, b, wl.random() < 0.1])
+        elif k == "badcall":
+            hist.append(["badcall", wl.choice(["swap2", "swap1", "mz", "rz", "rz_intended", "ins", "rem"]), a, wl.choice([0, 0, 1, 2, 7]), wl.random() < 0.5])
         elif k == "clone":
             hist.append(["clone", wl.randrange(3)])
         elif k == "circ":
@@ -462,6 +465,40 @@ def run_case(case):
                     ctx.probe("swap_with_sign_set")
                 cands = [("", ref)]
                 ctx.log(step, "swap", a, b)
+            elif k == "badcall":
+                # fault: a call with a qubit position outside the tableau (or an impossible intended state); where the
+                # library refuses it the object is used on and must be what it was.  Positions n..2n-1 are inside the
+                # 2n-wide table and >=2n outside of it.  A call that is not refused ends the run unjudged.
+                which, a_, off, wide = st[1], st[2] % n, st[3], st[4]
+                badq = (2 * n if wide else n) + off
+                ctx.fault("rejected_edit")
+                try:
+                    with OwnedRNG(random.Random(0), outcomes=OutcomeScript([0], fallback=0), ctx=ctx):
+                        if which == "swap2":
+                            sfc.swap_gate(sut.tab, Q(a_), Q(badq))
+                        elif which == "swap1":
+                            sfc.swap_gate(sut.tab, Q(badq), Q(a_))
+                        elif which == "mz":
+                            sfc.z_measurement_gate(sut.tab, Q(badq), 0)
+                        elif which == "rz":
+                            sfc.reset_z(sut.tab, Q(badq), 0, 0)
+                        elif which == "rz_intended":
+                            sfc.reset_z(sut.tab, Q(a_), 2 + off, 0)
+                        elif which == "ins":
+                            sfc.insert_qubit(sut.tab, Q(n + 1 + off))
+                        else:
+                            sfc.remove_qubit(sut.tab, Q(badq), 0)
+                except core.HarnessError:
+                    raise
+                except Exception as e:
+                    ctx.probe("out_of_range_call_refused")
+                    ctx.log(step, "badcall", which, badq, type(e).__name__)
+                else:
+                    ctx.probe("out_of_range_call_accepted")
+                    ctx.log(step, "badcall", which, badq, "accepted")
+                    break
+                cands = [("", ref)]
+                what = "refused_call"
             elif k == "clone":
                 # a second tableau object made from the current one (copy constructor / .copy());
                 # it is a bystander from now on: whatever happens to the original must not reach it
